@@ -1,6 +1,139 @@
-import RucteModel
+import RucteProofs.ExecSpec
 
-/-! # C03 — placeholder: theorems are added as they are proved. -/
+/-!
+# C03 — conditionals, loops and matches render what the Rust construct would
+
+`renderS` *is* the meaning of the Rust construct with the evaluation of user fragments abstracted
+in `Sem` (`cond` = is the `if` / `if let` taken and with which bindings, `iter` = the environments
+of the iterations, `arm` = which arm fires).  The unfolding lemmas below make that visible; the
+emitted code realises it against every sink (`exec_realises`, C14).
+-/
 namespace Ructe.C03
-theorem placeholder : True := trivial
+open Nom
+open Esc (Sink IoRes)
+
+/-- `if` taken: exactly the body, with the bindings of an `if let` -/
+theorem render_if_taken (sem : Sem) (prog : Prog) (n : Nat) (c : Bytes) (thn : List RS) (els : RElse) (env env' : Env)
+    (h : sem.cond c env = some env') :
+    renderS sem prog (n + 1) (.ifElse c thn els) env = renderL sem prog n thn env' := by
+  simp [renderS, h]
+
+/-- `if` not taken, no `else`: nothing — in particular nothing after the closing brace is swallowed -/
+theorem render_if_not_taken (sem : Sem) (prog : Prog) (n : Nat) (c : Bytes) (thn : List RS) (env : Env)
+    (h : sem.cond c env = none) :
+    renderS sem prog (n + 1) (.ifElse c thn .none) env = some [] := by
+  simp [renderS, h]
+
+/-- `else { … }` -/
+theorem render_else_block (sem : Sem) (prog : Prog) (n : Nat) (c : Bytes) (thn b : List RS) (env : Env)
+    (h : sem.cond c env = none) :
+    renderS sem prog (n + 1) (.ifElse c thn (.elseBlock b)) env = renderL sem prog n b env := by
+  simp [renderS, h]
+
+/-- `else if …` (flattened by the emitter) is the nested `if` in the `else` branch -/
+theorem render_else_if (sem : Sem) (prog : Prog) (n : Nat) (c : Bytes) (thn : List RS) (st : RS) (env : Env)
+    (h : sem.cond c env = none) :
+    renderS sem prog (n + 1) (.ifElse c thn (.elseIf st)) env = renderS sem prog n st env := by
+  simp [renderS, h]
+
+/-- the flattening is semantically neutral: `} else if c2 {…}` means `} else { if c2 {…} }` -/
+theorem else_if_flattening (sem : Sem) (prog : Prog) (n : Nat) (st : RS) (env : Env) (out : Bytes)
+    (h : renderS sem prog n st env = some out) :
+    renderL sem prog (n + 1) [st] env = some out := by
+  cases n with
+  | zero => simp [renderS] at h
+  | succ n => simp [renderL, h]
+
+/-- what the emitter does with `else_body = Some([IfBlock …])` -/
+theorem lower_else_if (e2 : Bytes) (b2 : List TExpr) (els2 : Option (List TExpr)) :
+    lowerElse (some [TExpr.ifBlock e2 b2 els2]) = .elseIf (.ifElse e2 (lowerList b2) (lowerElse els2)) := by
+  simp [lowerElse]
+
+/-- `for pat in iterable`: the concatenation of the body's renderings, one per iteration, in order -/
+theorem render_for (sem : Sem) (prog : Prog) (n : Nat) (pat it : Bytes) (body : List RS) (env : Env) :
+    renderS sem prog (n + 1) (.forIn pat it body) env = renderIter sem prog n body (sem.iter pat it env) := by
+  simp [renderS]
+
+theorem render_iter_nil (sem : Sem) (prog : Prog) (n : Nat) (body : List RS) :
+    renderIter sem prog (n + 1) body [] = some [] := by
+  simp [renderIter]
+
+theorem render_iter_cons (sem : Sem) (prog : Prog) (n : Nat) (body : List RS) (e : Env) (es : List Env) (a b : Bytes)
+    (ha : renderL sem prog n body e = some a) (hb : renderIter sem prog n body es = some b) :
+    renderIter sem prog (n + 1) body (e :: es) = some (a ++ b) := by
+  simp [renderIter, ha, hb]
+
+/-- `match`: exactly the body of the arm that fires, with its bindings -/
+theorem render_match (sem : Sem) (prog : Prog) (n : Nat) (e : Bytes) (arms : List (Bytes × List RS)) (env env' : Env) (i : Nat)
+    (h : sem.arm e (arms.map (·.1)) env = some (i, env')) :
+    renderS sem prog (n + 1) (.matchOn e arms) env = renderL sem prog n (nthArm arms i) env' := by
+  simp [renderS, h]
+
+/-- sequencing: text inside block bodies is preserved in full, in order -/
+theorem render_seq (sem : Sem) (prog : Prog) (n : Nat) (st : RS) (rest : List RS) (env : Env) (a b : Bytes)
+    (ha : renderS sem prog n st env = some a) (hb : renderL sem prog n rest env = some b) :
+    renderL sem prog (n + 1) (st :: rest) env = some (a ++ b) := by
+  simp [renderL, ha, hb]
+
+/-- more fuel never changes a defined rendering -/
+theorem render_fuel_mono (sem : Sem) (prog : Prog) :
+    ∀ n, (∀ st env out, renderS sem prog n st env = some out → renderS sem prog (n + 1) st env = some out) ∧
+         (∀ b env out, renderL sem prog n b env = some out → renderL sem prog (n + 1) b env = some out) ∧
+         (∀ b es out, renderIter sem prog n b es = some out → renderIter sem prog (n + 1) b es = some out) := by
+  intro n
+  induction n with
+  | zero => refine ⟨?_, ?_, ?_⟩ <;> intros <;> simp_all [renderS, renderL, renderIter]
+  | succ n ih =>
+    obtain ⟨ihS, ihL, ihI⟩ := ih
+    refine ⟨?_, ?_, ?_⟩
+    · intro st env out
+      cases st with
+      | writeAll t => simp [renderS]
+      | toHtml e => simp [renderS]
+      | forIn pat it body => simp only [renderS]; exact ihI _ _ _
+      | ifElse c thn els =>
+        simp only [renderS]
+        cases sem.cond c env with
+        | some env' => exact ihL _ _ _
+        | none =>
+          cases els with
+          | none => exact id
+          | elseIf st => exact ihS _ _ _
+          | elseBlock b => exact ihL _ _ _
+      | matchOn e arms =>
+        simp only [renderS]
+        cases sem.arm e (arms.map (·.1)) env with
+        | none => exact id
+        | some p => exact ihL _ _ _
+      | call f args =>
+        simp only [renderS]
+        split
+        · exact ihL _ _ _
+        · exact id
+        · cases prog.get f with
+          | some fn => exact ihL _ _ _
+          | none => exact id
+    · intro b env out
+      cases b with
+      | nil => simp [renderL]
+      | cons st rest =>
+        simp only [renderL]
+        cases h1 : renderS sem prog n st env with
+        | none => simp
+        | some a =>
+          cases h2 : renderL sem prog n rest env with
+          | none => simp
+          | some b => simp [ihS _ _ _ h1, ihL _ _ _ h2]
+    · intro b es out
+      cases es with
+      | nil => simp [renderIter]
+      | cons e es =>
+        simp only [renderIter]
+        cases h1 : renderL sem prog n b e with
+        | none => simp
+        | some a =>
+          cases h2 : renderIter sem prog n b es with
+          | none => simp
+          | some b' => simp [ihL _ _ _ h1, ihI _ _ _ h2]
+
 end Ructe.C03
